@@ -27,7 +27,7 @@ SetProp(s, f, v) == [h EXCEPT ![s].p[f] = v]
 
 (* structural variations *)
 Rev(t) == [j \in 1..Len(t) |-> t[Len(t) + 1 - j]]
-KidVars == {<<s, f>> \in Under \X {"child", "left", "right", "items", "head", "extra", "pair"} :
+KidVars == {<<s, f>> \in Under \X {"child", "left", "right", "items", "head", "extra", "pair", "kid"} :
                 /\ f \in Range(ChildFields[h[s].c])
                 /\ Kind[h[s].c][f] \in {"opt", "tuple"}
                 /\ IF Kind[h[s].c][f] = "opt" THEN h[s].k[f] # NoSlot ELSE Len(h[s].k[f]) > 0}
